@@ -53,18 +53,23 @@ CHECKS = {
         technique="Coq proof (hover: full functional statement for valid programs via the parser round trip and the typing theorems; signature help: answer shape) over Gallina models of the handlers + correspondence through the binary + scoping oracle"),
     "C15": dict(
         category="other",
-        text="Machine-checked (Props/C15.v, 12 theorems) over the model of semantic_tokens.rs, for ALL documents satisfying the "
+        text="Machine-checked (Props/C15.v, 14 theorems) over the model of semantic_tokens.rs. For ALL documents satisfying the "
              "executable predicate doc_wf_b: no slice panic and no u32 underflow (C15_no_panic), the decoded stream is the image "
              "of an order-preserving subsequence of the document's lexical tokens with their positions and UTF-16 lengths "
              "(C15_coincide), strictly increasing and disjoint, keywords / numbers / comments carry exactly their lexical class and "
              "are ALL reported, including comments behind the last declaration (C15_lexical_reported_everywhere; declarations plus "
              "trailing slice cover every token: C15_new_doc_covered). doc_wf_b is proved for lexer output (token half) and parser "
              "output (ordering half) and reduced to a name condition for analysed documents; that condition is evaluated by the "
-             "judge on every case. The binding-kind half of the full statement is stated, not proved; decided per input: model = "
-             "server; well-formedness oracle on all documents incl. malformed; classification oracle from the derivation (incl. "
-             "type uses shadowed by locals, repaired in /repo b909979).",
+             "judge on every case and PROVED for every valid program (C15_valid_doc_wf). For EVERY valid program in every layout "
+             "(C15_valid: abstract program of the grammar, well-typed, any text that lexes to its tokens): every identifier "
+             "occurrence is reported with the kind of the entry it is bound to under SPL scoping (type / function / parameter / "
+             "variable) and the declaration modifier exactly on its declaring occurrence, and nothing else is reported at that "
+             "position - the binding-kind half of the property. Not proved: the wording `document without diagnostics` "
+             "(needs completeness of the front end), and doc_wf_b for documents with syntax errors beyond the proved halves. "
+             "Decided per input: model = server; well-formedness oracle on all documents incl. malformed; classification oracle "
+             "from the derivation (incl. type uses shadowed by locals, repaired in /repo b909979).",
         design_ref="DESIGN.md sections 5 (C15) and 10.2",
-        technique="Coq proof of well-formedness of the delta-encoded stream over a Gallina model + correspondence through the binary + classification oracle"),
+        technique="Coq proof (well-formedness of the delta-encoded stream for all well-formed documents; binding kinds and declaration modifier for every valid program via the parser round trip and the typing theorems) over a Gallina model + correspondence through the binary + classification oracle"),
     "C16": dict(
         category="other",
         text="Machine-checked for ALL documents and positions (Props/C16.v, 7 theorems) over a literal transcription of "
